@@ -2,7 +2,7 @@ from vlib.core import *
 import struct, math, concurrent.futures
 
 META = dict(
-    level_text="Proved (Lean) for the Spectra-owned algebra of the wrappers, all sizes and any commutative ring/field: every wrapper with a triangle option is a function of symFromTri uplo M only (c11_triangle_only_*), SymShiftInvert's triangle-wise assembly equals the read triangle of sym(A) - sigma sym(B) for all 4 pairings x 4 (UploA,UploB) (c11_shiftinvert_assembly*), the five composite operators equal their documented operators given their parts (c11_cayley, c11_cholesky_op, c11_reginv_op, c11_buckling_op, c11_shiftinvert_op), the fill-reducing permutation of SparseCholesky cancels and F = L^-1 P is an inverse factor of B (c11_sparse_chol_perm, c11_perm_roundtrip), the real block system gives Re[(A - sigma I)^-1 x] (c11_real_part), and the template footprint regenerated from the headers passes Uplo to every Eigen member/view/compute call (c11_uplo_passthrough), instantiates SparseLU column-major for general matrices and otherwise only on matrices declared symmetric (c11_sparselu_colmajor_or_symmetric), tests info() and throws in every factorizing set_shift whose solver can fail (c11_shift_failure_throws), SparseRegularInverse::solve as coded equals the spec for both triangles (c11_reginv_solve) and SymShiftInvertHelper has exactly the view/transposition structure the assembly model mirrors (c11_helper_footprint). Each template configuration itself is decided by translation validation: the real class is run against the executable specification `spec uplo M` (model's own Cholesky / Gaussian elimination from the full symmetric matrix) with tolerance 256 n eps scale, plus the metamorphic junk-triangle run (bit-identical) and a long-double oracle of the documented operator. Eigen's decompositions are trusted.",
+    level_text="Proved (Lean) for the Spectra-owned algebra of the wrappers, all sizes and any commutative ring/field: every wrapper with a triangle option is a function of symFromTri uplo M only (c11_triangle_only_*), SymShiftInvert's triangle-wise assembly equals the read triangle of sym(A) - sigma sym(B) for all 4 pairings x 4 (UploA,UploB) (c11_shiftinvert_assembly*), the five composite operators equal their documented operators given their parts (c11_cayley, c11_cholesky_op, c11_reginv_op, c11_buckling_op, c11_shiftinvert_op), the fill-reducing permutation of SparseCholesky cancels and F = L^-1 P is an inverse factor of B (c11_sparse_chol_perm, c11_perm_roundtrip), the real block system gives Re[(A - sigma I)^-1 x] (c11_real_part), and the template footprint regenerated from the headers passes Uplo to every Eigen member/view/compute call (c11_uplo_passthrough), instantiates SparseLU column-major for general matrices and otherwise only on matrices declared symmetric (c11_sparselu_colmajor_or_symmetric), tests info() and throws in every factorizing set_shift whose solver can fail (c11_shift_failure_throws), SparseRegularInverse::solve as coded equals the spec for both triangles (c11_reginv_solve) and SymShiftInvertHelper has exactly the view/transposition structure the assembly model mirrors (c11_helper_footprint); the regenerated list of EVERY call a wrapper method makes on its third-party solver object (SparseLU, PartialPivLU, LLT, SimplicialLLT, ConjugateGradient, BKLDLT, the Fac& of the helper) contains only the documented interface compute / info / solve / matrixL,U / permutationP,Pinv / isSymmetric(true) (c11_solver_calls_documented), lifted to all member-function names (c11_only_documented_calls) and to all call histories: no pivot-threshold, tolerance or iteration-limit change, SparseLU keeps the partial pivoting it is constructed with (c11_no_pivot_threshold_change, c11_partial_pivoting). Each template configuration itself is decided by translation validation: the real class is run against the executable specification `spec uplo M` (model's own Cholesky / Gaussian elimination from the full symmetric matrix) with tolerance 256 n eps scale, plus the metamorphic junk-triangle run (bit-identical), a long-double oracle of the documented operator, for the real shift solves the normwise backward error <= 256 n eps (also on near-singular-pivot families: sigma within 1e-9..1e-5 of a diagonal entry of grid Laplacians / tridiagonal Toeplitz / diagonal-plus-low-rank matrices) and for the complex shift solves the shift history complex, real, complex on one object. Eigen's decompositions are trusted.",
     note="Lean kernel + standard axioms; Eigen LLT/SimplicialLLT/PartialPivLU/SparseLU/ConjugateGradient and Spectra's BKLDLT (C10) modelled by their specification; the correspondence is sampled per configuration with a normwise tolerance, not bit-exact; float/long double/complex<float> configurations are covered by the long-double oracle only",
     technique="Lean 4 proof (entrywise case analysis, Mathlib Matrix algebra) + per-configuration translation validation against an executable specification + metamorphic triangle test",
     design="§5 C11", harnesses=[{'name': 'c11', 'parts': True}])
@@ -162,7 +162,9 @@ def run(tier, seed, replay=None):
     R.trusted = TRUSTED_COMMON + [
         'Eigen 3.4.0 LLT, SimplicialLLT (+AMD ordering), PartialPivLU, SparseLU, ConjugateGradient, selfadjointView/triangularView products and Spectra::BKLDLT (property C10) are represented by their specification (they return the factorization / solution / product of the matrix they are given)',
         'the comparison with the executable specification is normwise: |impl - spec|_inf <= 256 n eps scale, scale = ||A|| ||x|| for products and cond_inf x ||y|| for solves (cond_inf^2 for triangular Cholesky solves), evaluated by the model itself',
-        'configurations with Scalar = float, long double, complex<float> have no model instance: long-double oracle only']
+        'configurations with Scalar = float, long double, complex<float> have no model instance: long-double oracle only',
+        'backward-error oracle of the real shift solves: |(A - sigma B) y - x|_inf / (|A - sigma B|_inf |y|_inf + |x|_inf) <= 256 n eps with A - sigma B formed in long double from the documented matrices (the near-singular-pivot generator keeps |A - sigma B| >= (|A| + |sigma| |B|) / 16, so the single rounding of the entries when the wrapper forms the matrix is covered)',
+        'the solver-call footprint is syntactic: calls on solver members, on non-const template-reference parameters (Fac&) and on local references to them inside MatOp/*.h; a configuration hidden behind a free function in another header is only seen as a "(use)" of the object']
     R.assumptions = ['matrices are admissible (symmetric / SPD / nonsingular after shifting) with cond_inf <= 1e4 (float: 50) in the sampled cases', 'no NaN/Inf entries']
     san = lambda p: p < 10
     if replay:
@@ -181,6 +183,6 @@ def run(tier, seed, replay=None):
         run_parts(R, QUICK_PARTS, 'thorough', san, label=':search')
     R.cov['distinct_nontrivial'] = sum(1 for v in percfg.values() if v[0] > 0) + sum(v for k, v in R.cov.get('harness_counters', {}).items() if k.startswith('c11:cases_'))
     R.cov['configurations'] = len(percfg)
-    R.cov['rule'] = ('per template configuration (quick: covering subset in which every option value of every wrapper appears; thorough: + all 64 SymShiftInvert<double,int,int> combinations, remaining StorageIndex and scalar types): 8 (thorough 24) cases, n in {1..12} (thorough up to 24), entry families {uniform, small integers with exact zeros, graded}, patterns {dense, banded, arrow, random sparse}, argument forms {plain, block, Map, expression, uncompressed}, last case = exactly singular shift / non-SPD matrix (error mapping); stored matrix = documented triangle + junk; second run with different huge junk must be bit-identical')
+    R.cov['rule'] = ('per template configuration (quick: covering subset in which every option value of every wrapper appears; thorough: + all 64 SymShiftInvert<double,int,int> combinations, remaining StorageIndex and scalar types): 8 (thorough 24) cases, n in {1..12} (thorough up to 24), entry families {uniform, small integers with exact zeros, graded}, patterns {dense, banded, arrow, random sparse}, argument forms {plain, block, Map, expression, uncompressed}, last case = exactly singular shift / non-SPD matrix (error mapping); shift-and-invert wrappers: + 3 (thorough 9) near-singular-pivot cases, families {grid Laplacian / convection, tridiagonal Toeplitz, diagonal + rank 1-2}, n in {6..14} (thorough up to 24), sigma = d(1 +- delta), d a diagonal entry (of A, or a_kk/b_kk), delta log-uniform in [1e-9, 1e-5], cond(A - sigma B) <= 1000, graded also by the normwise backward error <= 256 n eps; complex shift solves: shift history complex/real/complex on one object must reproduce the first answer; stored matrix = documented triangle + junk; second run with different huge junk must be bit-identical')
     R.cov['exhaustive'] = False
     return R.finish()
